@@ -10,23 +10,12 @@
   completing poll): FcProps/KTieJoinV.lean.
 -/
 import FcGen.KSrcFam2
-import FcProps.KTieFam
+import FcProps.KTieCore
+import FcProps.KTieStd
+import FcProps.KTiePS
 
 namespace Fc
 open Rs Src
-
-/-- what the crate stores of a join -/
-structure JCore where
-  core : FCore
-  out : Nat → Option Nat
-  dead : Bool
-
-def jcore (e : Eng Fix) : JCore := { core := fcore e, out := e.s.out, dead := e.s.dead }
-
-/-- the model outcome a returned `Poll<Vec<Output>>` stands for -/
-def outcomeOfJoin : Rs.Poll (List Nat) → Outcome
-  | .pending => .pending
-  | .ready vs => .ready true vs
 
 namespace TieJoinV
 open JoinV
@@ -45,14 +34,6 @@ structure WfJ (g : Join) : Prop where
   pc : g.roleCount = ((List.range g.roleKids.len).filter (fun i => g.roleStates.get i = PS.PollState.pending)).length
   rs : ∀ i, i < g.roleKids.len → (g.roleStates.get i = PS.PollState.pending ∨
         (g.roleStates.get i = PS.PollState.ready ∧ ∃ v, g.roleItems.get i = some v))
-
-/-- what the two sides agree on after the poll that COMPLETES the join: the crate moves the outputs out of their slots
-    (`OutputVec::take`; the model keeps its copy in `out`, it is never read again) and resets the `len` states it has (the
-    model resets its whole table); everything else — readiness set, `pending`, number of children, offset — is the same,
-    and both are consumed -/
-def doneAgree (a m : Eng Fix) : Prop :=
-  { fcore a with st := m.s.st } = fcore m ∧ (∀ i, i < m.s.n → a.s.st i = m.s.st i) ∧
-    a.s.dead = true ∧ m.s.dead = true ∧ ∀ i, a.s.out i = none
 
 def poll_tie_statement : Prop :=
   ∀ (g : Join) (b : Eng Fix) (w : Nat),
